@@ -33,6 +33,7 @@ def main():
     pycommon.k0_texts(chk, oracles_, ep, "expression kinds x positions k=0", wall=150 if chk.quick else 900)
     pycommon.indent_skeleton(chk, oracles_, 4 if chk.quick else 6, pycommon.CORE_OPTS, wall=120 if chk.quick else 1500)
     pycommon.indent_skeleton(chk, oracles_, 2 if chk.quick else 3, pycommon.RICH_OPTS, wall=120 if chk.quick else 1500, label="rich")
+    pycommon.indent_skeleton(chk, oracles_, 3, pycommon.WS_OPTS, wall=120 if chk.quick else 600, label="whitespace")
     if chk.quick:
         pycommon.b_seeds_k0(chk, oracles_, py, lift=True, wall=100)
         pycommon.b_holes(chk, oracles_, seeds.sample(chk.rng, py, 60), 2, lift=True, wall=120)
